@@ -680,10 +680,17 @@ func parseTLV(data []byte) (result []interface{}, err error) {
 
 		case tlvSHAPE:
 			shape := new(headPayloadShape)
+			nvals := 1
 			for i := 2; i < tlvsize; i += 2 {
 				d := int16(binary.BigEndian.Uint16(data[i:]))
 				if d > 0 {
 					shape.Sizes = append(shape.Sizes, d)
+					// The product of the sizes is the number of values per frame. It must not
+					// overflow (Frames() divides by it), and no payload holds more than 65535 bytes.
+					nvals *= int(d)
+					if nvals > math.MaxUint16 {
+						return result, fmt.Errorf("shape TLV describes more values per frame than a payload can hold")
+					}
 				}
 			}
 			if len(shape.Sizes) == 0 {
